@@ -766,3 +766,22 @@ M('c04-exists-keeps-removed-memo', 'C04', 'R4.11', [(BD,
 M('c05-case-check-everywhere', 'C05', 'R5.10', [(FB,
   "            not FileBuilder._IS_WINDOWS or\n",
   "")], 'Path.resolve() follows symlinks on every platform')
+M('c02-rollback-recreates-before-restore', ['C02', 'C03'], 'R2.7', [(FB,
+  "        self._backups.restore_all()\n"
+  "        FileBuilder._create_dirs(self._old_cache.created_dirs())\n"
+  "        logger.info('Rolled back build operation')",
+  "        FileBuilder._create_dirs(self._old_cache.created_dirs())\n"
+  "        self._backups.restore_all()\n"
+  "        logger.info('Rolled back build operation')")],
+  'the defect fixed by 515d796: a directory is re-created where a backed-up '
+  'file belongs')
+M('c02-rollback-restores-before-removal', ['C02', 'C03'], 'R2.7', [(FB,
+  "        FileBuilder._remove_empty_dirs(list(dirs_to_remove))\n\n"
+  "        # Restore the backups before recreating",
+  "\n        # Restore the backups before recreating"),
+  (FB,
+  "        FileBuilder._create_dirs(self._old_cache.created_dirs())\n"
+  "        logger.info('Rolled back build operation')",
+  "        FileBuilder._create_dirs(self._old_cache.created_dirs())\n"
+  "        FileBuilder._remove_empty_dirs(list(dirs_to_remove))\n"
+  "        logger.info('Rolled back build operation')")])
